@@ -176,6 +176,12 @@ def single_assignments(fnode):
             count[n.id] += 1
         if isinstance(n, ast.Assign) and len(n.targets) == 1 and isinstance(n.targets[0], ast.Name):
             val[n.targets[0].id] = n.value
+        # a, b = x, y
+        if isinstance(n, ast.Assign) and len(n.targets) == 1 and isinstance(n.targets[0], ast.Tuple) and isinstance(n.value, ast.Tuple) \
+                and len(n.targets[0].elts) == len(n.value.elts):
+            for t_, v_ in zip(n.targets[0].elts, n.value.elts):
+                if isinstance(t_, ast.Name):
+                    val[t_.id] = v_
     params = {a.arg for a in fnode.args.posonlyargs + fnode.args.args + fnode.args.kwonlyargs}
     mutated = set()
     for n in ast.walk(fnode):
@@ -206,7 +212,8 @@ def single_assignments(fnode):
             return True
         vs = allvals.get(k, [])
         return len(vs) == count[k] and all(path(v) for v in vs) and len({ast.dump(v) for v in vs}) == 1
-    return {k: v for k, v in val.items() if once(k) and k not in params and k not in mutated and not container(v)}
+    # a name bound to a path (an alias of an existing object) may be mutated through: it is still that object
+    return {k: v for k, v in val.items() if once(k) and k not in params and (k not in mutated or path(v)) and not container(v)}
 
 
 def expand_locals(fnode, expr, depth=4):
